@@ -601,6 +601,46 @@ def py_engine(tier, seed):
     return res
 
 
+# ------------------------------------------------------------------- Apalache inductive invariant
+
+def apalache_engine():
+    """Discharges the inductive invariant of spec/StarInd.tla (RRT* link/rewire over an arbitrary
+    non-negative metric, K = 5 nodes) with Apalache: base case and inductive step must report NoError;
+    the `<=` rewiring variant must yield a counterexample. Depends on the spec only: cached."""
+    key = hashlib.sha256((sha_of_files([os.path.join(SPEC, 'StarInd.tla')]) + 'apalache').encode()).hexdigest()[:20]
+    d = os.path.join(BUILD, 'cache', 'apalache', key)
+    f = os.path.join(d, 'result.json')
+    if os.path.exists(f):
+        r = json.load(open(f))
+        r['engine_cached'] = True
+        return r
+    os.makedirs(d, exist_ok=True)
+    t0 = time.time()
+    runs = [('base', 'ConstInitStrict', 'Init', 0, 'NoError'), ('step', 'ConstInitStrict', 'IndInit', 1, 'NoError'),
+            ('mutant-step(<=)', 'ConstInitLoose', 'IndInit', 1, 'Error')]
+    obl = []
+    for name, cinit, init, length, expect in runs:
+        p = run(['timeout', '1500', 'apalache-mc', 'check', f'--cinit={cinit}', f'--init={init}', '--inv=IndInv', f'--length={length}',
+                 f'--out-dir={os.path.join(d, "out")}', os.path.join(SPEC, 'StarInd.tla')], cwd=d, timeout=1600)
+        m = re.search(r'The outcome is: (\w+)', p.stdout or '')
+        outcome = m.group(1) if m else 'unknown'
+        obl.append({'obligation': name, 'outcome': outcome, 'expected': expect, 'ok': outcome == expect})
+        if not m:
+            shutil.rmtree(d, ignore_errors=True)
+            raise ToolError('apalache-mc gave no outcome for ' + name + ': ' + (p.stdout or '')[-600:])
+    shutil.rmtree(os.path.join(d, 'out'), ignore_errors=True)
+    if not all(o['ok'] for o in obl):
+        shutil.rmtree(d, ignore_errors=True)
+        raise ToolError(f'StarInd.tla: inductive invariant not discharged as expected: {obl}')
+    r = {'engine': 'ind:star', 'planner': 'rrtstar', 'configs': [{'name': 'StarInd K=5 (Apalache)', 'obligations': obl, 'states': 0, 'transitions': 0,
+                                                                  'distinct_final_snapshots': 0}],
+         'violations': [], 'samples': [], 'states': 0, 'transitions': 0, 'traces': 0, 'events': 0, 'witnesses': [], 'label_counts': {},
+         'obligations': 2, 'discharged': 2, 'wall_s': round(time.time() - t0, 1)}
+    json.dump(r, open(f, 'w'))
+    r['engine_cached'] = False
+    return r
+
+
 # ------------------------------------------------------------------------------------ properties
 
 TREE = ['lat:rrt', 'lat:rrtstar', 'lat:rrtc']
@@ -624,11 +664,11 @@ PROPS = {
     'C12': {'prefixes': ['C12/'], 'engines': ['spaces'], 'level': 'model_checking'},
     'C13': {'prefixes': ['C13/'], 'engines': ['spaces'], 'level': 'model_checking'},
     'C14': {'prefixes': ['C14/'], 'engines': ['spaces'], 'level': 'other'},
-    'C15': {'prefixes': ['C15/'], 'engines': TREE + APIT + REAL, 'level': 'model_checking'},
+    'C15': {'prefixes': ['C15/'], 'engines': TREE + APIT + REAL + ['ind:star'], 'level': 'model_checking'},
     'C19': {'prefixes': ['C19/'], 'engines': ['py'], 'level': 'translation_validation'},
     'C20': {'prefixes': ['C20/'], 'engines': ['py'], 'level': 'fault_enumeration'},
     'C16': {'prefixes': ['C16/'], 'engines': TREE + APIT + REAL, 'level': 'model_checking'},
-    'C17': {'prefixes': ['C17/'], 'engines': ['lat:rrtstar', 'api:rrtstar'] + REAL, 'level': 'model_checking'},
+    'C17': {'prefixes': ['C17/'], 'engines': ['lat:rrtstar', 'api:rrtstar'] + REAL + ['ind:star'], 'level': 'model_checking'},
     'C18': {'prefixes': ['C18/'], 'engines': ['lat:prm', 'api:prm'] + REAL, 'level': 'model_checking'},
 }
 
@@ -646,6 +686,8 @@ def run_engine(name, tier, seed):
         return r
     t0 = time.time()
     kind, _, arg = name.partition(':')
+    if kind == 'ind':
+        return apalache_engine()
     if kind == 'lat':
         r = lattice_engine(arg, tier, seed)
     elif kind == 'api':
@@ -762,6 +804,7 @@ def write_evidence(pid, tier, seed, spec, results, counts, nviol, wall, known_hi
         'engines': [{'engine': r['engine'], 'configs': r.get('configs', []), 'witnesses': r.get('witnesses', []),
                      'wall_s': r.get('wall_s'), 'cached_result_for_same_tree': r.get('engine_cached', False)} for r in results],
         'labels_of_this_property_raised': counts,
+        'inductive_obligations_discharged_by_apalache': [c.get('obligations') for r in results if r['engine'] == 'ind:star' for c in r['configs']],
         'programs': sum(r.get('programs', 0) for r in results),
         'disagreements_checked': sum(r.get('disagreements_checked', 0) for r in results),
         'explanation': 'see rule; for C14 this is sampler refinement (word -> cell bijection, ball accept/reject decisions, word consumption, '
